@@ -47,6 +47,19 @@ func genPool(t *rapid.T, prop string) *PoolProg {
 		p.Flaps = rapid.IntRange(0, 6).Draw(t, "flaps")
 		p.Resolves = rapid.IntRange(0, 4).Draw(t, "resolves")
 		p.Iter = rapid.IntRange(5, 20).Draw(t, "iter7")
+		p.DEPct = rapid.SampledFrom([]int{0, 60, 100}).Draw(t, "depct")
+		return p
+	case "C06":
+		p.Min = rapid.IntRange(1, 3).Draw(t, "min")
+		p.Max = p.Min + rapid.IntRange(0, 2).Draw(t, "maxd")
+		p.WM = rapid.SampledFrom([]int{1, 2, 100}).Draw(t, "wm")
+		p.Fallback = rapid.Bool().Draw(t, "fb")
+		p.RR = rapid.IntRange(0, 3).Draw(t, "rr") == 0
+		p.UdMs, p.UdCalls = rapid.SampledFrom([]int{0, 1, 1, 1}).Draw(t, "udms"), 1
+		p.DEPct = rapid.SampledFrom([]int{0, 60, 100}).Draw(t, "depct")
+		p.Flaps = rapid.IntRange(0, 20).Draw(t, "flaps")
+		p.Resolves = rapid.IntRange(0, 40).Draw(t, "resolves")
+		p.Iter = rapid.IntRange(5, 25).Draw(t, "iter6")
 		return p
 	}
 	p.Min = rapid.IntRange(1, 3).Draw(t, "min")
